@@ -814,6 +814,124 @@ theorem runC_fst (ops : List (Op R)) : (runC M ops).1 = run M ops := by
     | cons op ops ih => intro sc; exact ih _
   exact gen ops _
 
+/-! ### the generator table as part of the history: `withGen` against the plain module -/
+
+/-- while the custom generator does not return errors the module is the plain one -/
+theorem withGen_eq (custom : R → Bool) {g : GenMode} (hg : g ≠ .fail) : withGen M custom g = M := by
+  cases M
+  simp only [withGen, RuleMod.mk.injEq, true_and, and_true]
+  funext r
+  have : (g != GenMode.fail) = true := by simpa using hg
+  split_ifs <;> simp [this]
+
+theorem findEq_withGen (custom : R → Bool) (g : GenMode) (r : R) (old : List R) :
+    findEq (withGen M custom g) r old = findEq M r old := by
+  induction old with
+  | nil => rfl
+  | cons a os ih => simp only [findEq, ih]; rfl
+
+theorem dropStat_withGen (custom : R → Bool) (g : GenMode) (r : R) (old : List R) :
+    dropStat (withGen M custom g) r old = dropStat M r old := by
+  induction old with
+  | nil => rfl
+  | cons a os ih => simp only [dropStat, ih]; rfl
+
+theorem built_withGen (custom : R → Bool) (g : GenMode) (k : String) (r : R) (h : M.valid r = true → custom r = false) :
+    built (withGen M custom g) k r = built M k r := by
+  by_cases hv : M.valid r = true
+  · have hc := h hv
+    simp [built, withGen, hc]
+  · simp only [Bool.not_eq_true] at hv
+    simp [built, withGen, hv]
+
+/-- a list without valid custom rules is built alike whatever the custom generator does -/
+theorem buildList_withGen (custom : R → Bool) (g : GenMode) (k : String) (l : List (Option R))
+    (h : ∀ r, some r ∈ l → M.valid r = true → custom r = false) :
+    buildList (withGen M custom g) k l = buildList M k l := by
+  unfold buildList
+  have e : (l.filterMap id).filter (built (withGen M custom g) k) = (l.filterMap id).filter (built M k) := by
+    apply List.filter_congr
+    intro r hr
+    have : some r ∈ l := by
+      simp only [List.mem_filterMap, id] at hr
+      obtain ⟨o, ho, rfl⟩ := hr; exact ho
+    exact built_withGen custom g k r (h r this)
+  rw [e]; rfl
+
+theorem map_normIn_withGen (custom : R → Bool) (g : GenMode) (k : String) (l : List (Option R))
+    (h : ∀ r, some r ∈ l → M.valid r = true → custom r = false) :
+    l.map (normIn (withGen M custom g) k) = l.map (normIn M k) := by
+  apply List.map_congr_left
+  intro o ho
+  cases o with
+  | none => rfl
+  | some r =>
+    simp only [normIn, Option.map_some]
+    rw [built_withGen custom g k r (h r ho)]; rfl
+
+theorem buildReuse_withGen (custom : R → Bool) (g : GenMode) (k : String) (rules : List R) (h : ∀ r ∈ rules, custom r = false) :
+    ∀ old, buildReuse (withGen M custom g) k rules old = buildReuse M k rules old := by
+  induction rules with
+  | nil => intro old; rfl
+  | cons r rs ih =>
+    intro old
+    have ih' := ih (fun x hx => h x (List.mem_cons_of_mem _ hx))
+    have hc : custom r = false := h r List.mem_cons_self
+    unfold buildReuse
+    rw [findEq_withGen, dropStat_withGen]
+    have hb : (withGen M custom g).buildable r = M.buildable r := by simp [withGen, hc]
+    simp only [hb, ih']
+    rfl
+
+theorem validList_withGen (custom : R → Bool) (g : GenMode) (l : List (Option R)) :
+    validList (withGen M custom g) l = validList M l := rfl
+
+theorem validList_noCustom (custom : R → Bool) (l : List (Option R))
+    (h : ∀ r, some r ∈ l → M.valid r = true → custom r = false) : ∀ r ∈ validList M l, custom r = false := by
+  intro r hr
+  obtain ⟨h1, h2⟩ := List.mem_filter.mp hr
+  simp only [List.mem_filterMap, id] at h1
+  obtain ⟨o, ho, rfl⟩ := h1
+  exact h r ho h2
+
+theorem mem_proj {k : String} {rules : List (Option R)} {o : Option R} (h : o ∈ proj M k rules) : o ∈ rules :=
+  (List.mem_filter.mp h).1
+
+/-- a whole-set load without valid custom rules does the same whatever the custom generator does -/
+theorem loadAll_withGen (custom : R → Bool) (g : GenMode) (s : MState R) (rules : List (Option R))
+    (h : ∀ r, some r ∈ rules → M.valid r = true → custom r = false) :
+    loadAll (withGen M custom g) s rules = loadAll M s rules := by
+  have hp : ∀ k r, some r ∈ proj M k rules → M.valid r = true → custom r = false :=
+    fun k r hr hv => h r (mem_proj hr) hv
+  unfold loadAll
+  show (if (s.keys ++ ruleKeys M rules).all (fun k => s.cache k == proj M k rules) = true then _ else _) = _
+  by_cases hc : (s.keys ++ ruleKeys M rules).all (fun k => s.cache k == proj M k rules) = true
+  · rw [if_pos hc]; dsimp only; rw [if_pos hc]
+  · rw [if_neg hc]; dsimp only; rw [if_neg hc]
+    have e1 : ∀ k, (proj (withGen M custom g) k rules).map (normIn (withGen M custom g) k) = (proj M k rules).map (normIn M k) :=
+      fun k => map_normIn_withGen custom g k _ (hp k)
+    have e2 : ∀ k, buildList (withGen M custom g) k (proj (withGen M custom g) k rules) = buildList M k (proj M k rules) :=
+      fun k => buildList_withGen custom g k _ (hp k)
+    have e3 : ∀ k, buildReuse (withGen M custom g) k (validList (withGen M custom g) (proj (withGen M custom g) k rules)) (s.bound k) =
+        buildReuse M k (validList M (proj M k rules)) (s.bound k) :=
+      fun k => buildReuse_withGen custom g k _ (validList_noCustom custom _ (hp k)) _
+    simp only [e1, e2, e3]
+    rfl
+
+theorem loadRes_withGen (custom : R → Bool) (g : GenMode) (s : MState R) (res : String) (rules : List (Option R))
+    (h : ∀ r, some r ∈ rules → M.valid r = true → custom r = false) :
+    loadRes (withGen M custom g) s res rules = loadRes M s res rules := by
+  by_cases h0 : res = ""
+  · subst h0; rw [loadRes_noRes, loadRes_noRes]
+  by_cases h1 : rules = []
+  · subst h1; rw [loadRes_clear h0, loadRes_clear h0]
+  by_cases hc : s.cache res = rules
+  · rw [loadRes_unchanged h0 h1 hc, loadRes_unchanged h0 h1 hc]
+  · rw [loadRes_changed h0 h1 hc, loadRes_changed h0 h1 hc]
+    rw [map_normIn_withGen custom g res rules h, buildList_withGen custom g res rules h, validList_withGen,
+        buildReuse_withGen custom g res _ (validList_noCustom custom rules h)]
+    rfl
+
 theorem run_snoc (ops : List (Op R)) (op : Op R) : run M (ops ++ [op]) = (step M (run M ops) op).1 := by
   simp [run, List.foldl_append]
 
